@@ -503,6 +503,7 @@ def run_component(ctx, comp, seeds=None, tier=None):
         traces.append(("seed:%d" % sd, tp))
     cstat = ctx.corr["components"].setdefault(comp.name, {"seqs": 0, "lines": 0, "diffs": 0, "viols": 0})
     seen_diff = set()
+    first_diff = {}      # (origin, seq) -> line of the first counted divergence of that sequence
     for origin, tp in traces:
         out, rc, err = ctx.drv(comp.drv, tp, comp.drv_bin)
         if rc != 0:
@@ -540,6 +541,10 @@ def run_component(ctx, comp, seeds=None, tier=None):
                     # another property's monitor (that property's check lists it); counted, so that nothing vanishes unseen
                     ctx.foreign[a["monitor"]] = ctx.foreign.get(a["monitor"], 0) + 1
                     continue
+                # once model and implementation have parted in a sequence, what the driver derives from the model's state
+                # (the known-finding clause) is no longer evidence: the verdict is judged as an unlisted one
+                fd = first_diff.get((origin, sq))
+                a["after_diff"] = fd is not None and fd <= ln
                 cstat["viols"] += 1
                 ctx.corr["viols"] += 1
             else:
@@ -547,6 +552,7 @@ def run_component(ctx, comp, seeds=None, tier=None):
                 if opk in comp.ignore_diff_ops or (origin, sq) in seen_diff:
                     continue   # not this property's observable / cascade of an earlier divergence
                 seen_diff.add((origin, sq))
+                first_diff[(origin, sq)] = ln
                 cstat["diffs"] += 1
                 ctx.corr["diffs"] += 1
             if seqs is None:
@@ -657,7 +663,7 @@ def judge(ctx, comps, anomalies_by_comp, escalate=None):
             if a["kind"] == "VIOL":
                 e = ctx.known.get(a["clause"])
                 # an entry that names its component / monitors accounts for verdicts of exactly those
-                if e is not None and e.get("match_component", comp.name) == comp.name and \
+                if e is not None and not a.get("after_diff") and e.get("match_component", comp.name) == comp.name and \
                         a["monitor"] in e.get("match_monitors", [a["monitor"]]):
                     ctx.known_hits.setdefault(a["clause"], e["what"])
                     ctx.suppressed[a["clause"]] = ctx.suppressed.get(a["clause"], 0) + 1
@@ -792,7 +798,7 @@ def standard_check(prop, spec_module, comps, level_text, assumptions, tier, seed
             found = False
             for c in comps:
                 an = run_component(ctx, c, seeds=list(range(10)), tier="thorough" if tier == "thorough" else "quick")
-                vs = [a for a in an if a["kind"] == "VIOL" and a["clause"] not in ctx.known]
+                vs = [a for a in an if a["kind"] == "VIOL" and (a["clause"] not in ctx.known or a.get("after_diff"))]
                 if vs:
                     judge(ctx, comps, [(c, vs)])
                     found = bool(ctx.violations)
